@@ -150,6 +150,12 @@ func Gen(r *rand.Rand, o GenOpts) []string {
 	if o.Mix == "C04" || o.Mix == "C07" {
 		cfg.FcCap = []int{200, 200, 200, 20000}[r.Intn(4)]
 	}
+	// C03: one scenario in five has a cheater set of weight >= 1/3 (up to < 1/2); the roots cache is then
+	// disabled so that GetFrameRoots returns key order, which is the order the model uses
+	heavyCheat := o.Mix == "C03" && r.Intn(5) == 0
+	if heavyCheat {
+		cfg.RootsNum, cfg.RootsFrames = 0, 0
+	}
 	epoch0 := uint32(1 + r.Intn(3))
 	if r.Intn(10) == 0 {
 		epoch0 = uint32(1 + r.Intn(1000000))
@@ -224,7 +230,7 @@ func Gen(r *rand.Rand, o GenOpts) []string {
 			var cw uint64
 			for _, k := range r.Perm(len(es.ids)) {
 				id := es.ids[k]
-				if (cw+uint64(es.w[id]))*3 < es.total && r.Intn(2) == 0 {
+				if ((cw+uint64(es.w[id]))*3 < es.total || (heavyCheat && (cw+uint64(es.w[id]))*2 < es.total)) && r.Intn(2) == 0 {
 					es.cheater[id] = true
 					cw += uint64(es.w[id])
 				}
